@@ -20,5 +20,11 @@ def run(ctx, which, pid):
     from . import finalize_proofs
 
     finalize_proofs._patch()
+    from ..contracts import npgwrap as N
+
+    for c, callees in N.all_npgwrap():
+        c.prefix = pid + c.prefix[3:]
+        ex, obs = add_to_ctx(ctx, c, callees)
+        n += len(obs)
     conformance.add_to_ctx(ctx, ["argsort", "nonzero", "reduceat"])
-    return f"flox-engine kernels: {n} obligations from {', '.join(which)}."
+    return f"flox-engine kernels and the numpy_groupies nansum/nanprod wrappers (exactly NaN is replaced by the neutral element, infinities stay): {n} obligations from {', '.join(which)}."
